@@ -12,7 +12,7 @@ import (
 func init() {
 	register(&propDef{
 		ID:          "C01",
-		Explanation: "Agreement of the writer's and the reader's tables and layouts - the structural reason an exporter->collector round trip can work at all - decided from the source: (1) R-CODEC: per supported data type the encoder case and the decoder case have inverse signatures (both compared with the RFC 7011 table: width, big endian, conversion chain, boolean 1/2, raw 6/4/16 bytes), the getter used by the encoder is declared by the type the decoder constructs, width = InfoElementLength = Len of every registry literal (524) and of every derived reverse element; (2) the variable-length prefix scheme is the same in its five sites and the data reader passes to Next() either int(ie.Len) or the prefix reader's result, chosen by ie.Len == VariableLength (the test the encoder side uses); (3) R-LAYOUT reader side: decodePacket reads version/length/exportTime/sequence/obsDomain/setId/setLength as sequential big-endian fields of widths 2/2/4/4/4/2/2 - the offsets 0/2/4/8/12/16/18 the writer uses (C02) - and hands each variable to the matching Message setter; version must be 10; template record header (id, fieldCount) u16,u16; field specifier: 2 raw id bytes + u16 length, enterprise test 'first byte >> 7 == 1', 4-byte enterprise number read exactly then, bit cleared with ^0x80 before the id is interpreted big-endian; (4) the reader resolves (elementID, enterpriseID) through registry.GetInfoElementFromID, whose id-map and name-map are filled with the same pointer by registerInfoElement; (5) R-OWNER transport independence: decodePacket is the only producer of decoded messages and is reached from the TCP/TLS reader and the UDP/DTLS client handlers; the exporter has one IPFIX writer whatever net.Conn was dialled; (6) observation domain: header value <- ExportingProcess.obsDomainID <- ExporterInput.ObservationDomainID; collector SetObsDomainID(decoded variable). (6) R-LAYOUT.datagram: over UDP/DTLS the bytes decoded are exactly b[0:n] of one read (or a copy of exactly those), wrapped unchanged by the dispatcher and decoded by the client goroutine that received them; the template header's first field is what the template is stored/reported under, the second sizes its field list. Not decided: equality of delivered values over live sockets, TLS/DTLS record-layer transparency, IPv4/IPv6 listener behaviour, kernel fragmentation, 'any record count that fits'. Added after the later seed rounds: every id/enterprise/length that reaches the registry lookup or a placeholder comes from the current field specifier (local variable or assigned on every path); the record loop is left successfully only through its own condition; the remaining-bytes guard accepts an exact fit; reverse-registry entries only under err == nil; template refresh is started for protocol udp (DTLS included) and the shared connection is only written / read with a read deadline / closed. Round-five additions: sizes of receive buffers are not computed in a narrower integer type than int (a uint16 sum wraps); the copying add path never adopts the caller's slice (C16's no-adopt rule).",
+		Explanation: "Agreement of the writer's and the reader's tables and layouts - the structural reason an exporter->collector round trip can work at all - decided from the source: (1) R-CODEC: per supported data type the encoder case and the decoder case have inverse signatures (both compared with the RFC 7011 table: width, big endian, conversion chain, boolean 1/2, raw 6/4/16 bytes), the getter used by the encoder is declared by the type the decoder constructs, width = InfoElementLength = Len of every registry literal (524) and of every derived reverse element; (2) the variable-length prefix scheme is the same in its five sites and the data reader passes to Next() either int(ie.Len) or the prefix reader's result, chosen by ie.Len == VariableLength (the test the encoder side uses); (3) R-LAYOUT reader side: decodePacket reads version/length/exportTime/sequence/obsDomain/setId/setLength as sequential big-endian fields of widths 2/2/4/4/4/2/2 - the offsets 0/2/4/8/12/16/18 the writer uses (C02) - and hands each variable to the matching Message setter; version must be 10; template record header (id, fieldCount) u16,u16; field specifier: 2 raw id bytes + u16 length, enterprise test 'first byte >> 7 == 1', 4-byte enterprise number read exactly then, bit cleared with ^0x80 before the id is interpreted big-endian; (4) the reader resolves (elementID, enterpriseID) through registry.GetInfoElementFromID, whose id-map and name-map are filled with the same pointer by registerInfoElement; (5) R-OWNER transport independence: decodePacket is the only producer of decoded messages and is reached from the TCP/TLS reader and the UDP/DTLS client handlers; the exporter has one IPFIX writer whatever net.Conn was dialled; (6) observation domain: header value <- ExportingProcess.obsDomainID <- ExporterInput.ObservationDomainID; collector SetObsDomainID(decoded variable). (6) R-LAYOUT.datagram: over UDP/DTLS the bytes decoded are exactly b[0:n] of one read (or a copy of exactly those), wrapped unchanged by the dispatcher and decoded by the client goroutine that received them; the template header's first field is what the template is stored/reported under, the second sizes its field list. Not decided: equality of delivered values over live sockets, TLS/DTLS record-layer transparency, IPv4/IPv6 listener behaviour, kernel fragmentation, 'any record count that fits'. Added after the later seed rounds: every id/enterprise/length that reaches the registry lookup or a placeholder comes from the current field specifier (local variable or assigned on every path); the record loop is left successfully only through its own condition; the remaining-bytes guard accepts an exact fit; reverse-registry entries only under err == nil; template refresh is started for protocol udp (DTLS included) and the shared connection is only written / read with a read deadline / closed. Round-five additions: sizes of receive buffers are not computed in a narrower integer type than int (a uint16 sum wraps); the copying add path never adopts the caller's slice (C16's no-adopt rule). Round-six additions: the decoder makes one element slice per record (AddRecordV2 adopts it).",
 		Assume:      []string{"the writer-side layout equals RFC 7011 (decided by C02's rules, re-run here for the message header offsets)", "encoding/binary.Read reads fixed-size values sequentially"},
 		Run:         runC01,
 	})
@@ -53,6 +53,8 @@ func isBigEndianArg(v ssa.Value) bool {
 }
 
 func runC01(p *Prog, r *Report, tier string) {
+	// AddRecordV2 adopts the element slice it is given: the decoder makes one slice per record
+	checkFreshPerIteration(p, r, "R-OWNER.elements-fresh", "(*pkg/collector.CollectingProcess).decodeDataSet", func(n string) bool { return strings.HasSuffix(n, ".AddRecordV2") }, 1, "element slice")
 	tb := codecAgreement(p, r, "R-CODEC", "enc+dec")
 	registryLengths(p, r, "R-CODEC.registry", tb)
 	prefixSites(p, r, "R-CODEC.prefix")
